@@ -7,6 +7,7 @@
 #![allow(dead_code)]
 mod bigrat;
 mod core;
+mod sym;
 mod xq;
 mod c01;
 mod c02;
@@ -42,7 +43,9 @@ fn main() {
     let outdir = &args[4];
     if std::env::var("VERIF_SHOW_PANIC").is_err() { std::panic::set_hook(Box::new(|_| {})); }
     let mut ctx = core::Ctx::new(seed ^ 0xC0FFEE, scale);
-    if args.len() > 5 {
+    if args.len() > 5 && args[5] == "--sym" {
+        ctx.sym = true;
+    } else if args.len() > 5 {
         ctx.only = Some(args[5].clone());
     }
     match prop {
@@ -69,6 +72,12 @@ fn main() {
         _ => { eprintln!("unknown property {}", prop); std::process::exit(2); }
     }
     std::fs::create_dir_all(outdir).unwrap();
+    if ctx.sym {
+        core::write_sym(&format!("{}/sym.jsonl", outdir), &ctx.sym_fns);
+        let paths: usize = ctx.sym_fns.iter().map(|f| f.paths.len()).sum();
+        println!("sym functions={} paths={} unsupported={}", ctx.sym_fns.len(), paths, ctx.sym_fns.iter().filter(|f| f.unsupported.is_some()).count());
+        return;
+    }
     core::write_cases(&format!("{}/cases.jsonl", outdir), &ctx.cases);
     core::write_preds(&format!("{}/preds.jsonl", outdir), ctx.pred_evals, &ctx.pred_fails);
     println!("cases={} pred_evals={} pred_fails={}", ctx.cases.len(), ctx.pred_evals, ctx.pred_fails.len());
